@@ -368,3 +368,10 @@ func onAllPathsVia(g *ssax.Graph, at ssa.Instruction, anchor ssa.Value, match fu
 	}
 	return holds(b)
 }
+
+func boolStr(b bool) string {
+	if b {
+		return "true"
+	}
+	return "false"
+}
